@@ -812,7 +812,10 @@ func (s *sched) execute() {
 		mem0 = ociunify.New(mem0, &ociregistry.Funcs{}, nil)
 		mem1 = ociunify.New(mem1, &ociregistry.Funcs{}, nil)
 	}
-	u := ociunify.New(mem0, mem1, &ociunify.Options{ReadPolicy: ociunify.ReadConcurrent})
+	// the options value is the caller's: what the caller does with it after New is none of the unifier's business
+	opts := &ociunify.Options{ReadPolicy: ociunify.ReadConcurrent}
+	u := ociunify.New(mem0, mem1, opts)
+	opts.ReadPolicy = ociunify.ReadSequential
 
 	if s.preCancel {
 		s.doCancel("before the call is made")
